@@ -289,17 +289,28 @@ def run(ctx, repo, tier):
     pts = repo.cls("molgri.molecules.pts", "Pseudotrajectory")
     gen = pts.find_method("generate_pseudotrajectory")
     ctx.analysed(gen)
-    splits = {}
+    from ..astutil import const_slice
+    rowvars = set()
     for n in ast.walk(gen.node):
-        if isinstance(n, ast.Assign) and isinstance(n.value, ast.Subscript) and isinstance(n.value.slice, ast.Slice) and \
-                isinstance(n.targets[0], ast.Name):
-            s = n.value.slice
-            splits[n.targets[0].id] = (s.lower.value if isinstance(s.lower, ast.Constant) else None,
-                                       s.upper.value if isinstance(s.upper, ast.Constant) else None)
+        if isinstance(n, ast.For):
+            tg = n.target
+            if isinstance(tg, ast.Tuple) and len(tg.elts) == 2 and isinstance(n.iter, ast.Call) and src(n.iter.func) == "enumerate":
+                tg = tg.elts[1]
+            if isinstance(tg, ast.Name):
+                rowvars.add(tg.id)
+    slices = set()
+    for n in ast.walk(gen.node):
+        if isinstance(n, ast.Subscript) and isinstance(n.value, ast.Name) and n.value.id in rowvars:
+            cs = const_slice(n)
+            if cs is not None:
+                slices.add((cs[0] or 0, 7 if cs[1] is None else cs[1]))
     ctx.instance("LAYOUT")
-    ctx.check(splits.get("position") == (None, 3) and splits.get("orientation") == (3, None), "LAYOUT", "C09.reader.pts",
-              "the pseudotrajectory reads position = row[:3] and quaternion = row[3:] (same split as the writer)", gen.where,
-              witness=str(splits))
+    if not slices:
+        ctx.inconclusive("LAYOUT", "C09.reader.pts", "row split of the pseudotrajectory reader not recognised", gen.where)
+    else:
+        ctx.check(slices == {(0, 3), (3, 7)}, "LAYOUT", "C09.reader.pts",
+                  "the pseudotrajectory reads position = row[:3] and quaternion = row[3:] (same split as the writer)", gen.where,
+                  witness=f"column ranges read from a row: {sorted(slices)}")
     ctx.require_instances("LAYOUT", 10, "layout obligations")
     ctx.trust(*META["trusted"])
     ctx.assume(*META["assumptions"])
